@@ -1164,6 +1164,32 @@ class Body:
             return t
         return t
 
+    def copy_root(self, t):
+        """replace the root variable of a place-like term by the variable it is a plain copy / reborrow of (`let x = y;`, the
+        parameter binding of a helper that was analysed inlined); a variable bound to a computed value or a loop item stays"""
+        path = []
+        u = t
+        while u[0] in ("field", "deref", "ref", "downcast"):
+            path.append(u)
+            u = u[1]
+        seen = set()
+        while u[0] == "var" and len(u) > 2 and u[2] not in seen:
+            seen.add(u[2])
+            ds = self.var_defs(u)
+            if len(ds) != 1:
+                break
+            d = ds[0]
+            while d[0] in ("ref", "deref", "cast"):
+                d = d[1]
+            if d[0] in ("var", "param") and len(d) > 2 and not _is_loop_item(ds[0]):
+                u = d
+            else:
+                break
+        out = u
+        for node in reversed(path):
+            out = (node[0], out) + tuple(node[2:])
+        return out
+
     def guard_atoms(self, b, expand_vars=False):
         """[(atom, truth)] that hold on every path to b, including what a named boolean implies: after
         `let same = a.eq(x) && b.eq(y); if same {..}` the guard `same == true` implies both comparisons
